@@ -109,7 +109,21 @@ def check_mapfns(prog, rep):
                 v = ret.value
                 if isinstance(v, ast.Call) and isinstance(v.func, ast.Attribute) and field_of(v.func.value) is None and dump(v.func) == "self.mapfn" and len(v.args) == 1:
                     inner = v.args[0]
-                    if isinstance(inner, ast.Call) and isinstance(inner.func, ast.Attribute) and isinstance(inner.func.value, ast.Name):
+                    # a unit conversion or rescaling between the distance and the map function: map positions are stored in Morgans and mapfn takes Morgans
+                    wrapped = None
+                    if isinstance(inner, ast.Call) and len(inner.args) == 1 and isinstance(inner.args[0], ast.Call) and isinstance(inner.args[0].func, ast.Attribute) \
+                            and inner.args[0].func.attr.startswith("gdist") and (prog.dotted(f.module, inner.func) or dump(inner.func)).split(".")[-1] in ("cM2d", "d2cM"):
+                        wrapped = dump(inner.func)
+                    elif isinstance(inner, ast.BinOp) and isinstance(inner.op, (ast.Mult, ast.Div)) and any(
+                            isinstance(x, ast.Call) and isinstance(x.func, ast.Attribute) and x.func.attr.startswith("gdist") for x in (inner.left, inner.right)) \
+                            and any(isinstance(x, ast.Constant) and isinstance(x.value, (int, float)) and x.value not in (1, 1.0) for x in (inner.left, inner.right)):
+                        wrapped = dump(inner)[:40]
+                    if wrapped:
+                        rep.violate("R1-formulas", f.qualname, "rprob%s converts the distances (%s) before applying the map function: map positions are stored in Morgans, which is what "
+                                    "mapfn takes - recombination probabilities are those of distances 100 times off" % (suffix, wrapped), where(f, inner),
+                                    "self.mapfn(gmap.gdist%s(...))" % suffix, wrapped)
+                        okk = True
+                    elif isinstance(inner, ast.Call) and isinstance(inner.func, ast.Attribute) and isinstance(inner.func.value, ast.Name):
                         ps = f.params()[1:]
                         want = "gdist" + suffix
                         if inner.func.attr != want:
